@@ -307,18 +307,20 @@ CLAIMED["C01"] = {
 ADDED = {
     "C01": "Also: every handler that looks at an operand copies it out of a field/element view first (view-read).",
     "C02": "Also: no run-time site builds a boxed present optional (including Option::map(Box::new) payloads); handlers copy operands out of views; a class never collects two members of one name (member-unique).",
-    "C03": "Also: a block scope never starts from the return status another arm ended with (return-scope fresh-status).",
+    "C03": "Also: a block scope never starts from the return status another arm ended with (return-scope fresh-status); function types compare their parameters with signature_check set (signature-invariance).",
     "C04": "Also: the arguments of a trace/log call borrow nothing that `run` holds; the index unit of string built-ins (index-unit).",
     "C05": "Also: every left shift of a program integer is shifted back and compared (exact-shift); `%` and `/` are evaluated at (MIN, -1) of each signed "
-           "kind (extremes: `%` must yield 0, `/` must stop).",
+           "kind (extremes: `%` must yield 0, `/` must stop); `< <= > >=` evaluated on all kind pairs at three operand pairs (compare-values).",
     "C06": "Also: fold width and the text rule of Number::negate; exact-shift on both towers; the folder's signed remainder tests a divisor of -1 (exact-rem).",
     "C07": "Also: the capture depth is raised only by nodes that open a function (cycle-boundary); store_fast with a nameable operand is emitted only "
-           "for names the statement introduces (fresh-cell); a declared name is read by supplies() (R-VISIT covers Import).",
-    "C08": "Also: code labels are generated, fixed literals, or spelled from names the parser refuses to see twice in a file (code-label; known finding).",
-    "C10": "Also: a field step or compound assignment on a module-typed object (an alias of an imported module) is const; postfix steps never clear the flag.",
+           "for names the statement introduces (fresh-cell); a declared name is read by supplies() (R-VISIT covers Import); `modify` only for captured names (modify-target); no cell write outside the instruction handlers (cell-writes).",
+    "C08": "Also: code labels are generated, fixed literals, or spelled from names the parser refuses to see twice in a file (code-label; known finding); a method-call link stores the receiver into the register the call loads `self` from (receiver-bound).",
+    "C10": "Also: a field step or compound assignment on a module-typed object (an alias of an imported module) is const; postfix steps never clear the flag; Scope::add_dependency always writes the record (scope-record).",
     "C11": "Also: the compile queue is drained to its end; the module path drops every non-naming feature the grammar lets an import spell (module-identity).",
     "C13": "Also: hash() reads only what eq() compares and no shared cell's contents (hash-eq; list keys are a known finding); a list/map operation "
-           "mutably borrows its receiver only (effects-confined); hashable-key predicate vs the run-time Hash table; index dispatch; fresh results.",
+           "mutably borrows its receiver only (effects-confined); hashable-key predicate vs the run-time Hash table; index dispatch; fresh results; no view is stored into a slot (no-view-stored).",
+    "C12": "Also: handlers copy operands out of views before the nil test (view-read).",
+    "C15": "Also: the folder turns an expression into a constant only when no operand that would run is dropped (fold-keeps-operands).",
     "C14": "Also: the float-to-int range guards of to_int / to_bigint; strip-once; a removed `0x` marker selects base 16 (marker-radix); conversion arms evaluated at the boundaries of their integer domain (domain); index unit of s[i] (known finding).",
     "C16": "Also: index / surplus-argument accesses in builders; borrow discipline of RefCell guards; collection-length subtractions are guarded (len-minus); the parser's recursion depth is bounded (depth; known finding).",
     "C17": "Also: from_str_radix radix range; container taint for indexing program lists; frames held during a call; borrow discipline.",
